@@ -22,18 +22,21 @@ struct Case
 static long g_id = 0;
 static void run_case(const Case &c, long id)
 {
+  wv_null_input = c.cls == "nullinput";
   OpResult v = wv_verify(c.C, c.key, c.T);
   OpResult d = wv_decrypt(c.C, c.key, c.T);
+  OpResult dp = wv_null_input ? d : wv_decrypt_pipe(c.C, c.key, c.T);
+  wv_null_input = false;
   Ev("op").i("id", id).str("cls", c.cls).str("kind", c.kind).i("pos", c.pos).i("val", c.val).i("T", c.T).i("S", iobuffer::sum).b("key", c.key).b("C", c.C)
       .str("how", "ok").i("ver_ret", v.ret).i("ver_outlen", v.out.size()).i("ver_intact", v.in_after == c.C)
-      .i("dec_ret", d.ret).b("D", d.out).i("dec_intact", d.in_after == c.C)
+      .i("dec_ret", d.ret).b("D", d.out).i("dec_intact", d.in_after == c.C).i("decp_ret", dp.ret).i("decp_same", dp.out == d.out).i("decp_len", dp.out.size())
       .i("has_orig", !c.oC.empty()).b("oP", c.oP).b("oKey", c.oKey).b("oC", c.oC)
       .emit(wv_out);
 }
 static void abnormal(const Case &c, long id, const char *how, int detail)
 {
   Ev("op").i("id", id).str("cls", c.cls).str("kind", c.kind).i("pos", c.pos).i("val", c.val).i("T", c.T).i("S", iobuffer::sum).b("key", c.key).b("C", c.C)
-      .str("how", how).i("detail", detail).i("ver_ret", 0).i("ver_outlen", 0).i("ver_intact", 1).i("dec_ret", 0).b("D", NULL, 0).i("dec_intact", 1)
+      .str("how", how).i("detail", detail).i("ver_ret", 0).i("ver_outlen", 0).i("ver_intact", 1).i("dec_ret", 0).b("D", NULL, 0).i("dec_intact", 1).i("decp_ret", 0).i("decp_same", 1).i("decp_len", 0)
       .i("has_orig", !c.oC.empty()).b("oP", c.oP).b("oKey", c.oKey).b("oC", c.oC)
       .emit(wv_out);
 }
@@ -430,6 +433,8 @@ int main(int argc, char **argv)
               mk("garbage", "class", len, ct * 256 + ht, f, key, none, none, none);
             }
           }
+    // an input that could not be opened (NULL handle): both operations must fail cleanly
+    mk("nullinput", "null", 0, 0, std::vector<u8_t>(), key, none, none, none);
     // tag valid for another key / for other content: a real file re-keyed or with another file's tag
     for (int rep = 0; rep < 6; ++rep)
     {
